@@ -367,7 +367,8 @@ func (r *Runner) resolveCallExpression(ctx context.Context, expr *CallExpression
 		err = results[1].Interface().(error)
 		err = fmt.Errorf("call function '%s' error: %s", name, err.Error())
 	}
-	return results[0].Interface(), err
+	// (a typed nil pointer handed back by the function is null, like one found in the data)
+	return formatNilValue(results[0].Interface()), err
 }
 
 func firstParamIsContext(funcType reflect.Type) bool {
